@@ -1,4 +1,4 @@
-import Brax.Lemmas.C02
+import Brax.Lemmas.C02Dyn
 /-!
 # C02 — generalized-pipeline dynamics terms equal the reference engine
 
@@ -27,5 +27,155 @@ theorem massMatrix_symm {α : Type} [Zero α] [One α] [Add α] [Sub α] [Mul α
     entry_map_map idx (fun lr as => massEntry ps (crb ps cinr) cdof arm lr.1 lr.2 as.1 as.2)]
   cases idx[i]? <;> cases idx[j]? <;> simp only
   exact massEntry_symm _ _ _ _ _ _ _ _
+
+/-! ## the quadratic form of the mass matrix is the kinetic energy (CRB correctness) -/
+
+/-- the flat generalized-velocity vector with entry `X l r` at the `r`-th dof of link `l` -/
+def flatVec {R : Type} (cdof : List (List (Motion R))) (X : Nat → Nat → R) : List R :=
+  (dofIdx cdof.length (wAt cdof)).map fun lr => X lr.1 lr.2
+
+/-- **`xᵀ M x = Σ_k v_k(x)ᵀ I_k v_k(x) + Σ_i armature_i x_i²`** with
+`v_k(x) = Σ_{i ∈ dofs of ancestors-or-self of k} cdof_i x_i` (`velAnc`): the matrix built by
+`mass.matrix` (composite inertias by the reverse tree scan, ancestor mask, lower triangle
+mirrored, armature on the diagonal) is the joint-space inertia matrix of the tree — for every
+forest (parents precede children), every `cdof`, every symmetric `cinr`, over any commutative
+ring. -/
+theorem massMatrix_eq_keForm {R : Type} [CommRing R] (ps : List Int) (cinr : List (Inertia R))
+    (cdof : List (List (Motion R))) (arm : List (List R)) (X : Nat → Nat → R)
+    (hps : ps.length = cdof.length) (hI : cinr.length = cdof.length) (hwf : PWF ps)
+    (hsym : ∀ x ∈ cinr, SymmI x) :
+    quadForm (massMatrix ps cinr cdof arm) (flatVec cdof X)
+      = rsum cdof.length (fun k => ke (cinr.getD k dI) (velAnc ps cdof X k))
+        + nsum cdof.length (wAt cdof) (fun l r => armAt arm l r * (X l r * X l r)) :=
+  quadForm_massMatrix ps cinr cdof arm X hps hI hwf hsym
+
+section ordered
+variable {K : Type} [Field K] [LinearOrder K] [IsStrictOrderedRing K]
+
+/-- **positive semidefinite**: when every CoM-frame link inertia is a non-negative form and the
+armatures are non-negative, `xᵀ M x ≥ 0`. -/
+theorem massMatrix_posSemidef (ps : List Int) (cinr : List (Inertia K))
+    (cdof : List (List (Motion K))) (arm : List (List K)) (X : Nat → Nat → K)
+    (hps : ps.length = cdof.length) (hI : cinr.length = cdof.length) (hwf : PWF ps)
+    (hsym : ∀ x ∈ cinr, SymmI x) (hpsd : ∀ k v, 0 ≤ ke (cinr.getD k dI) v)
+    (harm : ∀ l r, 0 ≤ armAt arm l r) :
+    0 ≤ quadForm (massMatrix ps cinr cdof arm) (flatVec cdof X) := by
+  rw [massMatrix_eq_keForm ps cinr cdof arm X hps hI hwf hsym]
+  apply add_nonneg
+  · exact rsum_nonneg _ _ fun k _ => hpsd k _
+  · exact rsum_nonneg _ _ fun l _ => rsum_nonneg _ _ fun r _ =>
+      mul_nonneg (harm l r) (mul_self_nonneg _)
+
+/-- **positive definite when the armature is positive**: `xᵀ M x > 0` for every `x ≠ 0`. -/
+theorem massMatrix_posDef_of_armature (ps : List Int) (cinr : List (Inertia K))
+    (cdof : List (List (Motion K))) (arm : List (List K)) (X : Nat → Nat → K)
+    (hps : ps.length = cdof.length) (hI : cinr.length = cdof.length) (hwf : PWF ps)
+    (hsym : ∀ x ∈ cinr, SymmI x) (hpsd : ∀ k v, 0 ≤ ke (cinr.getD k dI) v)
+    (harm : ∀ l r, 0 < armAt arm l r)
+    (hX : ∃ l r, l < cdof.length ∧ r < wAt cdof l ∧ X l r ≠ 0) :
+    0 < quadForm (massMatrix ps cinr cdof arm) (flatVec cdof X) := by
+  rw [massMatrix_eq_keForm ps cinr cdof arm X hps hI hwf hsym]
+  obtain ⟨l, r, hl, hr, hx⟩ := hX
+  apply add_pos_of_nonneg_of_pos
+  · exact rsum_nonneg _ _ fun k _ => hpsd k _
+  · have hterm : ∀ a s, 0 ≤ armAt arm a s * (X a s * X a s) := fun a s =>
+      mul_nonneg (le_of_lt (harm a s)) (mul_self_nonneg _)
+    apply rsum_pos _ _ (fun a _ => rsum_nonneg _ _ fun s _ => hterm a s) l hl
+    apply rsum_pos _ _ (fun s _ => hterm l s) r hr
+    exact mul_pos (harm l r) (mul_self_pos.mpr hx)
+
+end ordered
+
+/-! ## passive force and total smooth force, against the Spec -/
+
+/-- **`_passive` equals MuJoCo's `qfrc_passive`** (springs on hinge/slide dofs, dampers on every
+dof) — every system, every state. -/
+theorem passive_eq (s : Sys ℝ) (q qd ctrl : List ℝ) :
+    passiveFlat s q qd = (MjD.forwardData s q qd ctrl).qfrcPassive := by
+  unfold passiveFlat nested MjD.forwardData
+  simp only
+  congr 1
+  apply List.map_congr_left
+  intro l _
+  exact passiveLink_eq l
+
+/-- closed form of one link's passive force: `−k·q − d·q̇` on hinge/slide dofs -/
+theorem passive_axis (l : LinkIn ℝ) (h : l.typ ≠ .free) :
+    passiveLink l = (l.dofs.zip (l.q.zip l.qd)).map fun t =>
+      -(t.1.stiffness * t.2.1) + -(t.1.damping * t.2.2) := by
+  rw [passiveLink_eq]
+  unfold MjD.passive
+  cases ht : l.typ with
+  | free => exact absurd ht h
+  | one | two | three => rfl
+
+/-- … and `−d·q̇` only on the dofs of a free link (stiffness is **not** applied to free `q`) -/
+theorem passive_free (l : LinkIn ℝ) (h : l.typ = .free) :
+    passiveLink l = (l.dofs.zip l.qd).map fun t => -(t.1.damping * t.2) := by
+  rw [passiveLink_eq]
+  unfold MjD.passive
+  rw [h]
+
+/-- **`dynamics.forward`: `qf_smooth = passive − bias + tau` equals MuJoCo's `qfrc_smooth`**
+whenever the bias force and the actuator force do. -/
+theorem forward_eq (s : Sys ℝ) (st : DynState ℝ) (q qd act : List ℝ)
+    (hbias : biasFlat s st q qd = (MjD.forwardData s q qd act).qfrcBias)
+    (htau : toTau s.nv s.acts act q qd = (MjD.forwardData s q qd act).qfrcActuator) :
+    qfSmooth s st q qd act = (MjD.forwardData s q qd act).qfrcSmooth := by
+  unfold qfSmooth
+  rw [hbias, htau, passive_eq s q qd act]
+  rfl
+
+/-! ## semi-implicit Euler with implicit joint damping -/
+
+/-- entries of `mass_mx + diag(damping)·dt` -/
+theorem dampedMatrix_entry (m : List (List ℝ)) (d : List ℝ) (dt : ℝ) (i j : Nat)
+    (hi : i < m.length) (hj : j < (m.getD i []).length) :
+    entry (dampedMatrix m d dt) i j = entry m i j + (if j = i then d.getD i 0 * dt else 0) := by
+  unfold dampedMatrix entry
+  rw [getD_map_zip_range m _ [] [] i hi]
+  simp only
+  rw [getD_map_zip_range (m.getD i []) _ 0 0 j hj]
+  simp only
+  split <;> simp
+
+/-- **`integrator.integrate` is the semi-implicit Euler step with implicit joint damping.**
+With `solve` an exact solve of `M′ = mass_mx + dt·diag(damping)` for the right-hand side at hand:
+`M′ (q̇′ − q̇) = dt·(qf_smooth + qf_constraint)`, the reported `qdd` is the solution, and the
+positions are integrated link by link from the **new** velocities. -/
+theorem integrate_semiImplicit (solve : List (List ℝ) → List ℝ → List ℝ) (s : Sys ℝ)
+    (m : List (List ℝ)) (q qd f c : List ℝ)
+    (hsolve : matVec (dampedMatrix m (s.dofs.map (·.damping)) s.dt)
+        (solve (dampedMatrix m (s.dofs.map (·.damping)) s.dt) (List.zipWith (· + ·) f c))
+      = List.zipWith (· + ·) f c)
+    (hlen : (solve (dampedMatrix m (s.dofs.map (·.damping)) s.dt) (List.zipWith (· + ·) f c)).length
+      = qd.length) :
+    let r := integrate solve s m q qd f c
+    matVec (dampedMatrix m (s.dofs.map (·.damping)) s.dt) (List.zipWith (· - ·) r.2.1 qd)
+        = (List.zipWith (· + ·) f c).map (· * s.dt)
+    ∧ r.1 = ((linkSlices s.types q r.2.1 s.dofs).map (integrateQLink s.dt)).flatten := by
+  intro r
+  refine ⟨?_, rfl⟩
+  show matVec _ (List.zipWith (· - ·) (List.zipWith (fun v a => v + a * s.dt) qd _) qd) = _
+  rw [zipWith_sub_update qd _ s.dt hlen, matVec_map_mul_right, hsolve]
+
+/-- hinge/slide links: `q′ = q + dt·q̇′` -/
+theorem integrate_axis (dt : ℝ) (l : LinkIn ℝ) (h : l.typ ≠ .free) :
+    integrateQLink dt l = List.zipWith (fun q v => q + v * dt) l.q l.qd := by
+  unfold integrateQLink
+  cases ht : l.typ with
+  | free => exact absurd ht h
+  | one | two | three => rfl
+
+/-- free links: `pos′ = pos + dt·v′`, and the new orientation is a **unit** quaternion -/
+theorem integrate_free (dt : ℝ) (hdt : |dt| ≤ 1) (l : LinkIn ℝ) (h : l.typ = .free)
+    (p0 p1 p2 r0 r1 r2 r3 v0 v1 v2 w0 w1 w2 : ℝ)
+    (hq : l.q = [p0, p1, p2, r0, r1, r2, r3]) (hqd : l.qd = [v0, v1, v2, w0, w1, w2])
+    (hr : 0 < Q4.normSq (⟨r0, r1, r2, r3⟩ : Q4 ℝ)) :
+    ∃ rot : Q4 ℝ, rot.IsUnit ∧ integrateQLink dt l
+      = [p0 + v0 * dt, p1 + v1 * dt, p2 + v2 * dt, rot.w, rot.x, rot.y, rot.z] := by
+  unfold integrateQLink
+  rw [h, hq, hqd]
+  exact integrateQFree_unit dt hdt p0 p1 p2 r0 r1 r2 r3 v0 v1 v2 w0 w1 w2 hr
 
 end Brax.C02
